@@ -50,12 +50,12 @@ def _ucn_char(it):
 
 
 def judge_text(text, items=None):
-    """Run the real lexer on text and judge it. -> (fails, items)."""
+    """Run the real lexer on text and judge it. -> (fails, items, toks, errs)."""
     r = run_lexer(text, "")
     if items is None:
         items = lexref.scan(text)
     if not r.terminated:
-        return [("no-termination", f"{r.calls} calls")], items
+        return [("no-termination", f"{r.calls} calls")], items, [], []
     if "\n" in text:
         from mc.lexrun import line_starts
         ls = line_starts(text)
@@ -73,7 +73,16 @@ def judge_text(text, items=None):
         if any(_ucn_char(it) for it in cand):
             # separately signed: universal character name in a character constant
             fails = [("ucn-in-char-const", fails[0][1])]
-    return fails, items
+    return fails, items, toks, errs
+
+
+def parser_robust(spelling):
+    """Whatever single literal token the lexer makes of a string, the parser
+    must answer with a FileAST or a ParseError."""
+    out = core.parse_outcome("int x = " + spelling + ";")
+    if out[0] == "exc":
+        return [("parser:exception:" + out[1].split("@")[0], f"{spelling!r}: {out[1]} {out[2]}")]
+    return []
 
 
 def parser_check(spelling, tok_type):
@@ -83,7 +92,7 @@ def parser_check(spelling, tok_type):
     text = "int x = " + spelling + ";"
     out = core.parse_outcome(text)
     if out[0] == "exc":
-        return [(f"{tok_type}:parser-exception:{out[1]}", out[2])]
+        return [("parser:exception:" + out[1].split("@")[0], f"{spelling!r}: {out[1]} {out[2]}")]
     if out[0] != "ok":
         return [(f"{tok_type}:parser-rejects", str(out[1:])[:200])]
     try:
@@ -129,10 +138,22 @@ def _judge_variants(s, hist, acc, parse=True):
                 lexref.Item(lexref.ACCEPT, "SEMI", ";", len(s), len(s) + 1)]
         else:
             its = None
-        fl, _ = judge_text(t, its)
+        fl, _, toks, errs = judge_text(t, its)
         acc["lexed"] += 1
         for sig, det in fl:
             _record(acc, sig, {"text": t}, det)
+        if suf == "":
+            one_literal = (len(toks) == 1 and not errs and toks[0][0] in lexref.LITERAL_TYPES
+                           and toks[0][1] == s)
+    must_accept = (len(items) == 1 and items[0].verdict == lexref.ACCEPT
+                   and items[0].type in lexref.LITERAL_TYPES and items[0].start == 0
+                   and items[0].end == len(s))
+    if parse and one_literal and not must_accept:
+        # not a MUST-ACCEPT literal, but the lexer made exactly one literal
+        # token of it: the parser must still answer FileAST or ParseError
+        acc["parsed_any"] += 1
+        for sig, det in parser_robust(s):
+            _record(acc, sig, {"text": s, "parser": "robust"}, det)
     if parse and len(items) == 1 and items[0].verdict == lexref.ACCEPT \
             and items[0].type in lexref.LITERAL_TYPES and items[0].start == 0 \
             and items[0].end == len(s):
@@ -151,7 +172,7 @@ def _record(acc, sig, case, det):
 
 
 def _new_acc():
-    return {"nontrivial": 0, "lexed": 0, "parsed": 0, "strings": 0, "fails": [],
+    return {"nontrivial": 0, "lexed": 0, "parsed": 0, "parsed_any": 0, "strings": 0, "fails": [],
             "sigs": set(), "ctypes": set()}
 
 
@@ -242,7 +263,7 @@ def run(tier):
     quick = tier == "quick"
     L = 5 if quick else 6
     hist = {}
-    tot = {k: 0 for k in ("nontrivial", "lexed", "parsed", "strings", "ref_chars",
+    tot = {k: 0 for k in ("nontrivial", "lexed", "parsed", "parsed_any", "strings", "ref_chars",
                           "ref_items", "ref_scans")}
     ctypes = set()
 
@@ -284,8 +305,9 @@ def run(tier):
 
     R.set("states", tot["ref_items"])
     R.set("transitions", tot["ref_chars"])
-    R.set("traces_validated_against_impl", tot["lexed"] + tot["parsed"])
-    R.set("evaluations", tot["lexed"] + tot["parsed"])
+    R.set("traces_validated_against_impl", tot["lexed"] + tot["parsed"] + tot["parsed_any"])
+    R.set("evaluations", tot["lexed"] + tot["parsed"] + tot["parsed_any"])
+    R.set("parser_runs_on_lenient_single_literals", tot["parsed_any"])
     R.set("distinct_nontrivial", tot["nontrivial"])
     R.set("distinct_outcomes", len(hist))
     R.set("strings_classified", tot["strings"])
@@ -316,7 +338,8 @@ def run(tier):
         samples,
         "every string <= L over the 17-character alphabet (alone, + blank, + ';'), the suffix / escape / "
         "multi-character tables, judged three-valued; every MUST-ACCEPT single literal also through "
-        "CParser.parse. states = reference-lexer items classified, transitions = characters consumed by the "
+        "CParser.parse (Constant value/type), and every other string the lexer turns into exactly one literal token "
+        "must give FileAST or ParseError. states = reference-lexer items classified, transitions = characters consumed by the "
         "reference scanner, traces = lexer runs + parser runs compared. non-trivial = strings containing at "
         "least one literal-like item (constant, quoted literal, pp-number, comment) for the reference",
     )
@@ -326,11 +349,14 @@ def replay(rep):
     c = rep["case"]
     t = c["text"]
     print("input:", repr(t))
-    if c.get("parser"):
+    if c.get("parser") == "robust":
+        fl = parser_robust(t)
+        print("parse:", core.parse_outcome("int x = " + t + ";")[:2])
+    elif c.get("parser"):
         fl = parser_check(t, c["type"])
         print("parse:", core.parse_outcome("int x = " + t + ";")[0])
     else:
-        fl, items = judge_text(t)
+        fl, items, _, _ = judge_text(t)
         print("reference:", items)
         print("lexer:", run_lexer(t, "").events)
     for sig, det in fl:
